@@ -34,7 +34,8 @@ def stress_docs(rnd, n):
              "[m](#nosuch)", "[](#title-1)", "text [^f1] and [^f2]", "[^f1]: note one", "[^f1]: dup", "[^f3]: unused", "| a | b |\n|---|---|\n| 1 |\n| 1 | 2 | 3 |",
              "> # quoted heading\n>\n> ***", "- item\n\n  ## heading in item\n\n  ---", "***", "term\n: def", "{.cls #pid}\npara with id",
              "```{note}\n# in note\n\n---\n```", ":::{tip}\n(tgt2)=\ninner\n:::", "[ref]: https://e.x\n\n[ref] [ref][]", "<div>html</div>", "$$a=1$$ (eq1)", "$$b$$ (eq1)",
-             "# 日本語", "[j](#日本語)", "## Ünï ćödé", "[](#ünï-ćödé)", "## 123", "[n](#123)", "# With {#explicit}", "[e](#with)",
+             "# 日本語\n\n[j](#日本語)", "## Ünï ćödé\n\n[](#ünï-ćödé)", "## 123\n\n[n](#123)", "# With {#explicit}\n\n[e](#with) [f](#explicit)",
+             "# Same\n\n# Same\n\n[s](#same-1) [t](#same)",
              '<div class="admonition">\n<![foo]>\n</div>', '<img src="a.png" alt="x">', '<div class="admonition note">\n<p class="title">T</p>\nbody\n</div>']
     for t in range(n):
         k = rnd.randint(2, 8)
